@@ -10,13 +10,13 @@ from . import mux as M
 TRACE_CFG = lambda stepwise: C.cfg(spec='TraceSpec', constants={'Stepwise': stepwise})
 
 
-def run_case(case):
+def run_case(case, taps='all'):
     mode = case.get('mode', 'mux')
     if mode == 'mux':
-        return M.run_mux(case['pipe'], case['src'], timescale=case.get('timescale'))
+        return M.run_mux(case['pipe'], case['src'], timescale=case.get('timescale'), taps=taps)
     if mode == 'src':
         return M.run_src(case['pipe'], case['src'], complete=case.get('complete', True),
-                         timescale=case.get('timescale'))
+                         timescale=case.get('timescale'), taps=taps)
     raise C.MachineryError('unknown mode %r' % mode)
 
 
@@ -94,6 +94,27 @@ def judge(V, cases, relevant, stats, family='', keep_traces=None):
                         '+'.join(sorted({n for _, n in mine})),
                         detail='first rejected at source step %s' % step)
     stats['rejected'] = stats.get('rejected', 0) + len(rejected)
+    # The taps are operators themselves: they change the operator graph (e.g. what a
+    # nested tee_map sees as its source).  Every case is therefore also executed with
+    # taps at the two ends only; its outputs must be those of the fully tapped run
+    # (which the contracts have just judged).
+    def ends(t):
+        last = log_of(t, [len(t['pipe'])])
+        return ([(e['t'], e['k'], e['v']) for e in last], [o['v'] for o in t['out']],
+                t['end']['t'], t['end']['v'], [d['v'] for d in t['dl']])
+    for i, c in enumerate(cases):
+        if i in rejected:
+            continue
+        u = run_case(c, taps='ends')
+        if ends(u) != ends(traces[i]):
+            tr = traces[i]
+            V.violation({'family': family, 'ops': ' '.join(op_names(tr['pipe'])),
+                         'pipe': json.dumps(tr['pipe'], sort_keys=True), 'mode': tr['mode'],
+                         'src': tr['src'], 'timescale': c.get('timescale'), 'untapped': True,
+                         'clauses': ['untapped-differs']}, 'untapped-differs',
+                        detail='without inner taps: end=%s out=%s' % (u['end'], json.dumps(ends(u)[0])[:300]))
+            stats['untapped_differs'] = stats.get('untapped_differs', 0) + 1
+    stats['untapped_runs'] = stats.get('untapped_runs', 0) + len(cases) - len(rejected)
     return traces
 
 
@@ -104,6 +125,16 @@ def replay(prop, path, relevant):
     case = {'pipe': json.loads(w['pipe']), 'mode': w['mode'], 'src': w['src'],
             'timescale': w.get('timescale')}
     tr = run_case(case)
+    if w.get('untapped'):
+        u = run_case(case, taps='ends')
+        a = [(e['t'], e['k'], e['v']) for e in log_of(tr, [len(tr['pipe'])])]
+        b = [(e['t'], e['k'], e['v']) for e in log_of(u, [len(u['pipe'])])]
+        print('with taps   :', a, tr['end'])
+        print('without taps:', b, u['end'])
+        if a != b or tr['end']['t'] != u['end']['t']:
+            print('VIOLATION property=%s replay=%s clause=untapped-differs' % (prop, path))
+            return 1
+        return 0
     v, _ = C.validate_traces('MuxTrace', [slim(tr)], cfg_text=TRACE_CFG(True))
     print('pipeline :', ' '.join(op_names(case['pipe'])))
     print('source   :', json.dumps(case['src']))
